@@ -12,7 +12,7 @@ import itertools
 
 import numpy as np
 
-from .. import gens, rt, sel
+from .. import forms as vforms, gens, rt, sel
 from ..common import Skip, brief
 
 ID = "C08"
@@ -52,8 +52,8 @@ SAMPLED = {"quick": 1400, "thorough": 24000}
 CASES = {t: len(_EXH[t]) + SAMPLED[t] for t in ("quick", "thorough")}
 FLOOR = {"quick": 1800, "thorough": 25000}
 FLOOR_COUNTERS = {
-    "quick": {"links_judged": 4000, "exhaustive_schedule_cases": len(_EXH["quick"]), "prefix_init_fits": 150, "threshold_toggles": 300, "estimators_with_a_past": 300, "small_unit_cases": 60},
-    "thorough": {"links_judged": 60000, "exhaustive_schedule_cases": len(_EXH["thorough"]), "prefix_init_fits": 2500, "threshold_toggles": 5000, "estimators_with_a_past": 5000, "small_unit_cases": 1000},
+    "quick": {"links_judged": 4000, "exhaustive_schedule_cases": len(_EXH["quick"]), "prefix_init_fits": 150, "threshold_toggles": 300, "estimators_with_a_past": 300, "small_unit_cases": 60, "configured_not_by_constructor": 500, "non_default_containers": 500, "reader_rounds": 2000, "carried_by:deepcopy": 100, "carried_by:pickle": 100, "thresholds_equal_to_a_score": 20},
+    "thorough": {"links_judged": 60000, "exhaustive_schedule_cases": len(_EXH["thorough"]), "prefix_init_fits": 2500, "threshold_toggles": 5000, "estimators_with_a_past": 5000, "small_unit_cases": 1000, "configured_not_by_constructor": 9000, "non_default_containers": 9000, "reader_rounds": 30000, "carried_by:deepcopy": 1800, "carried_by:pickle": 1800, "thresholds_equal_to_a_score": 350},
 }
 RULE = (
     "case = one of 13 selector variants (FPS, PCov-FPS both directions, VoronoiFPS, CUR/PCov-CUR both directions with "
@@ -146,11 +146,19 @@ def gen(rng, tier, index):
         thr = None
         if forms == "mixed" and rng.random() < 0.35:
             thr = gens.pick(rng, ("absolute", "relative"))
+        if forms == "mixed" and kind == "lattice_wide" and cls in ("FPS", "VoronoiFPS") and unit == 1.0:
+            thr = "absolute"  # whole-number data: the threshold will sit exactly on a score
         links.append({"n": nts, "resolved": int(e), "threshold": thr})
     past = None
     if not exhaustive and rng.random() < 0.3:  # the chain's estimator was cold-fitted before on other data of the same shape
         past = {"X": rng.normal(size=X.shape) * unit, "y": None if y is None else rng.normal(size=len(X)), "n": int(rng.integers(1, min(N, nfin + 3) + 1))}
-    return {"spec": spec, "X": X * unit, "y": y, "kind": kind, "links": links, "exhaustive": exhaustive, "unit": unit, "past": past}
+    carry = [gens.pick(rng, vforms.CARRY) if not exhaustive else "same" for _ in sch]
+    readers = bool(rng.random() < 0.5)  # the fitted state is read through the public accessors between two links
+    if not exhaustive:  # the same configuration and the same numbers through another public route / container
+        spec["how"] = gens.pick(rng, vforms.CONFIGURE)
+        spec["xform"] = gens.pick(rng, vforms.PRESENT)
+        spec["yform"] = gens.pick(rng, vforms.PRESENT)
+    return {"spec": spec, "X": X * unit, "y": y, "kind": kind, "links": links, "exhaustive": exhaustive, "unit": unit, "past": past, "carry": carry, "readers": readers}
 
 
 def _state(est, spec):
@@ -196,6 +204,10 @@ def _judgeable(spec, X, y, nfin):
 
 def run(case, j):
     spec, X, y, links = case["spec"], case["X"], case["y"], case["links"]
+    if spec.get("how", "ctor") != "ctor":
+        j.note("configured_not_by_constructor")
+    if spec.get("xform", "C") != "C":
+        j.note("non_default_containers")
     axis = sel.axis_of(spec)
     N = X.shape[axis]
     fam_fps = spec["cls"] in sel.FPS_FAMILY
@@ -272,11 +284,20 @@ def run(case, j):
         j.lib("fit:earlier-history", sel.fit, est, case["past"]["X"], case["past"]["y"], spec)
         j.note("estimators_with_a_past")
     diverged = False
+    # whole-number data: every FPS distance is computed exactly, so a threshold EQUAL to a score is meaningful
+    exact = spec["cls"] in ("FPS", "VoronoiFPS") and case.get("unit", 1.0) == 1.0 and bool(np.all(X == np.round(X))) and float(np.abs(X).max()) < 1e3
     for li, link in enumerate(links):
+        if li > 0 and case.get("carry") and case["carry"][li] != "same":
+            est = j.lib("carry", vforms.carry, est, case["carry"][li], j)  # the chain continues on a copy of the object
         est.n_to_select = link["n"]
         if link["threshold"]:
             est.score_threshold_type = link["threshold"]
             est.score_threshold = 1e-300
+            t_last = link["resolved"] - 1 - ninit
+            if exact and link["threshold"] == "absolute" and 0 <= t_last < len(picks) and picks[t_last]["scores"] is not None and picks[t_last]["chosen"] is not None:
+                # the threshold sits exactly ON the smallest score the link has to accept: not below it, so not reached
+                est.score_threshold = float(np.asarray(picks[t_last]["scores"], dtype=float)[picks[t_last]["chosen"]])
+                j.note("thresholds_equal_to_a_score")
             j.note("threshold_toggles")
         else:
             est.score_threshold = None
@@ -301,6 +322,19 @@ def run(case, j):
         if cold_state["ys"] is not None or st["ys"] is not None:
             good = st["ys"] is not None and cold_state["ys"] is not None and np.array_equal(st["ys"], cold_state["ys"][:e])
             j.ok("y_selected_ equals the cold fit's stored targets", good)
+        if case.get("readers"):
+            # public accessors are readers: whatever is read between two links, the state stays what it was
+            rd = [lambda: est.get_support(), lambda: est.get_support(indices=True), lambda: est.get_support(indices=True, ordered=True), lambda: est.score(X, y)]
+            if axis == 1:  # transform is documented as unsupported for sample selection
+                rd.append(lambda: est.transform(X))
+            if fam_fps:
+                rd += [lambda: est.get_distance(), lambda: est.get_select_distance()]
+            for k_, f_ in enumerate(rd):
+                j.lib(f"reader{k_}", f_)
+            st2 = _state(est, spec)
+            same = st2["idx"] == st["idx"] and all(np.array_equal(st2[k_], st[k_]) for k_ in ("Xs", "table") if k_ in st) and (st.get("sd") is None or np.array_equal(st2["sd"], st["sd"]))
+            j.ok("reading the selection through the public accessors leaves the fitted state untouched", same, lambda: {"before": st["idx"], "after": st2["idx"]})
+            j.note("reader_rounds")
         ref_tab = commits[e - 1]["table"]
         if fam_fps:
             j.close("distance table after the link == cold fit's table after the same step", st["table"], ref_tab, tol, {"link": li, "e": e})
